@@ -377,6 +377,12 @@ class Check:
             self._offer(case, v)
 
     def _offer(self, case, v):
+        if os.environ.get("VERIF_SCAN"):
+            # development aid: collect every violation instead of stopping at the first (never used by registered commands)
+            self.scanned = getattr(self, "scanned", [])
+            if len(self.scanned) < 400:
+                self.scanned.append(v.msg[:400])
+            return
         for kid, name in self.active_matchers:
             try:
                 if name in self.matchers and self.matchers[name](case, v):
@@ -432,6 +438,7 @@ def _worker_main(args):
             @settings(st)
             @given(strat)
             def test(case):
+                chk.ncases = getattr(chk, "ncases", 0) + 1
                 if internal[0] is not None:
                     return
                 key = None
@@ -475,7 +482,8 @@ def _worker_main(args):
             chk.drv.stop()
     res.update(evals=chk.evals, nontrivial=sorted(chk.nontrivial), classes=chk.classes,
                skipped=chk.skipped, excluded=chk.excluded, samples=chk.samples, slow=chk.slow,
-               wall=time.time() - t0, restarts=(chk.drv.restarts if chk.drv else 0))
+               wall=time.time() - t0, restarts=(chk.drv.restarts if chk.drv else 0),
+               ncases=getattr(chk, "ncases", 0), scanned=getattr(chk, "scanned", []))
     return res
 
 
@@ -605,12 +613,18 @@ def main(check_cls, argv=None):
     slow = []
     for r in results:
         slow.extend(r.get("slow", []))
+    if os.environ.get("VERIF_SCAN"):
+        allv = [m for r in results for m in r.get("scanned", [])]
+        print("SCAN: %d violations collected" % len(allv))
+        for m in sorted(set(allv))[:int(os.environ.get("VERIF_SCAN_MAX", "150"))]:
+            print("  SCAN " + m[:int(os.environ.get("VERIF_SCAN_W", "230"))])
     errors = [r["error"] for r in results if r["error"]]
     viols = [r["violation"] for r in results if r["violation"]]
     chk = check_cls()
     cov = {"evaluations": evals, "distinct_nontrivial": len(nontriv), "rule": chk.rule,
            "samples": samples, "classes": dict(sorted(classes.items())), "skipped": skipped,
            "excluded_known": excluded, "workers": nworkers,
+           "generated_cases": sum(r.get("ncases", 0) for r in results),
            "driver_restarts": sum(r["restarts"] for r in results)}
     if slow:
         cov["slow_cases"] = slow[:5]
